@@ -1422,3 +1422,4 @@ case("c11-refactor-choice-claimed-any", "C11", "refactor", [(H + "start_stage/co
                 continue""", """        for s in all_stages:
             if s.id == stage.id or s.deferred_choice_group != stage.deferred_choice_group:
                 continue""")])
+case("c04-trigger-only-last-upstream", "C04", "mutant", [(H + "complete_stage/handler.py", "                            for downstream in activated_downstreams:", "                            for downstream in [d for d in activated_downstreams if d.all_upstream_stages_complete()]:")], "C04.R5")
